@@ -983,9 +983,10 @@ class Tensor:
         relationship with the view-tensor since these are measures of "cause and effects"
         associated with varying elements of data (albeit infinitesmaly).
         """
-        if self._base is None or self._constant:
+        if self._base is None or self._constant or self._base._constant:
             # (a constant tensor never exposes a gradient, even as a view of
-            # a non-constant tensor)
+            # a non-constant tensor; a non-constant view of a constant base has
+            # no base-gradient to mirror, so it reports its own gradient)
             return self._grad
 
         if self._view_grad is not None and self._view_grad.base is self._base._grad:
